@@ -14,6 +14,7 @@ import (
 	"encoding/json"
 	"fmt"
 	"io"
+	"math/bits"
 	"math/rand"
 	"os"
 	"sort"
@@ -155,6 +156,14 @@ type Case struct {
 	Read      []RSpan `json:"read"`
 	ReadAll   int     `json:"read_all"`  // spans returned by ONE OutputQuery over all rows in order
 	Responses int     `json:"responses"` // parser responses carrying rows (> 1 = mid-request flush)
+	// Resp: per parser response that carried rows, in order: [trace rows, tag rows] as the parser built them (before the insert services)
+	Resp [][2]int `json:"resp"`
+	// TextLens: Zipkin: byte length of the text of every element of the request (what the decoder stores as payload); an input-side fact
+	TextLens []int `json:"text_lens"`
+	// PayLens: byte length of every stored payload (observation; for OTLP = len(proto.Marshal(span)))
+	PayLens []int `json:"pay_lens"`
+	// PayFp: OTLP: two polynomial fingerprints of every stored payload's bytes (see fp61); the Coq model computes the same over its own encoding
+	PayFp [][2]uint64 `json:"pay_fp"`
 }
 
 // ---------------------------------------------------------------- conversions abstract <-> protobuf
@@ -482,7 +491,7 @@ func (s *segReader) Read(p []byte) (int, error) {
 
 // ---------------------------------------------------------------- running one case
 
-func collect(ch chan *wmodel.ParserResponse) (err error, spans []*wmodel.TempoSamples, tags []*wmodel.TempoTag) {
+func collect(ch chan *wmodel.ParserResponse) (err error, spans []*wmodel.TempoSamples, tags []*wmodel.TempoTag, resp [][2]int) {
 	for r := range ch {
 		if r.Error != nil {
 			if err == nil {
@@ -490,14 +499,36 @@ func collect(ch chan *wmodel.ParserResponse) (err error, spans []*wmodel.TempoSa
 			}
 			continue
 		}
+		one := [2]int{0, 0}
 		if s, ok := r.SpansRequest.(*wmodel.TempoSamples); ok && s != nil {
 			spans = append(spans, s)
+			one[0] = len(s.MTraceId)
 		}
 		if t, ok := r.SpansAttrsRequest.(*wmodel.TempoTag); ok && t != nil {
 			tags = append(tags, t)
+			one[1] = len(t.MKey)
 		}
+		resp = append(resp, one)
 	}
 	return
+}
+
+// fp61: polynomial fingerprints of a byte string modulo two 61-bit primes (the same arithmetic runs inside Coq over N)
+const fpP1, fpP2 = uint64(2305843009213693951), uint64(2305843009213693921)
+
+func mulmod(a, b, m uint64) uint64 {
+	hi, lo := bits.Mul64(a, b)
+	_, rem := bits.Div64(hi%m, lo, m)
+	return rem
+}
+
+func fp61(b []byte) [2]uint64 {
+	var h1, h2 uint64
+	for _, c := range b {
+		h1 = (mulmod(h1, 257, fpP1) + uint64(c) + 1) % fpP1
+		h2 = (mulmod(h2, 263, fpP2) + uint64(c) + 1) % fpP2
+	}
+	return [2]uint64{h1, h2}
 }
 
 // ---- the rows as the insert services hand them to ClickHouse: the parser's TempoSamples / TempoTag go through the
@@ -619,7 +650,14 @@ func run(c *Case, silence bool) {
 	c.Err, c.ErrMsg, c.Spans, c.Tags, c.Read, c.ReadAll, c.Panic, c.RetryDiff = false, "", []TRow{}, []ARow{}, []RSpan{}, 0, "", ""
 	// the parser gets its own copy of the body (what it retains must not alias our buffers) delivered in segments
 	sr := &segReader{b: append([]byte{}, body...), r: hx.Rand(c.SegSeed), mode: c.SegMode}
-	err, spans, tags := collect(parser(context.Background(), sr, nil))
+	err, spans, tags, resp := collect(parser(context.Background(), sr, nil))
+	c.Resp, c.TextLens, c.PayLens, c.PayFp = resp, []int{}, []int{}, [][2]uint64{}
+	if c.Resp == nil {
+		c.Resp = [][2]int{}
+	}
+	for _, t := range texts {
+		c.TextLens = append(c.TextLens, len(t))
+	}
 	c.BodyLen, c.Reads, c.SegHead = len(body), sr.reads, sr.head
 	c.BodyB64, c.SegAll = "", nil
 	if os.Getenv("SPANS_DUMP_BODY") != "" {
@@ -646,6 +684,10 @@ func run(c *Case, silence bool) {
 				PType: int(cs.i64("payload_type", i))}
 			p := []byte(pl)
 			idx := len(c.Spans)
+			c.PayLens = append(c.PayLens, len(p))
+			if c.Fmt == "otlp" {
+				c.PayFp = append(c.PayFp, fp61(p))
+			}
 			switch {
 			case len(p) == 0:
 				row.Payload.Kind = "empty"
@@ -1200,6 +1242,95 @@ func genFat(r *rand.Rand, c *Case, fmtName string, n int, blobLen int, segMode i
 	c.Sep, c.TrailNL = r.Intn(4), r.Intn(2) == 0
 }
 
+// ---- requests around and above the 1 MiB threshold of onSpan (mid-request flush)
+
+func jfield(v JV, k string) (JV, bool) {
+	for _, kv := range v.O {
+		if kv.K == k {
+			return kv.V, true
+		}
+	}
+	return JV{}, false
+}
+
+// estZipSize: what onSpan adds to spans.Size + attrs.Size for a well-formed span object without repeated members
+// (used only to AIM generated requests at the threshold; the expected flush points come from the Coq model)
+func estZipSize(e JV, text string) int {
+	n := 49 + len(text)
+	if _, ok := jfield(e, "parentId"); ok {
+		n += 8
+	}
+	svc := ""
+	for _, ep := range []string{"localEndpoint", "remoteEndpoint"} {
+		if o, ok := jfield(e, ep); ok {
+			if sn, ok := jfield(o, "serviceName"); ok {
+				n += 40 + len(ep) - len("Endpoint") + len("_endpoint_service_name") + len(sn.S)
+				if svc == "" {
+					svc = sn.S
+				}
+			}
+		}
+	}
+	if nm, ok := jfield(e, "name"); ok {
+		n += len(nm.S) + 40 + 4 + len(nm.S)
+	}
+	if tg, ok := jfield(e, "tags"); ok {
+		for _, kv := range tg.O {
+			if kv.V.T == "s" {
+				n += 40 + len(kv.K) + len(kv.V.S)
+			}
+		}
+	}
+	return n + len(svc) + 40 + len("service.name") + len(svc)
+}
+
+func estCaseSize(c *Case) int {
+	_, texts := zipkinBody(c)
+	n := 0
+	for i, e := range c.Zip {
+		n += estZipSize(e, texts[i])
+	}
+	return n
+}
+
+// genThreshold: n Zipkin spans with a 30 kB tag each; target > 0: the first span is padded so that the sizes onSpan
+// accumulates over the whole request add up to exactly target (1 MiB: no flush; 1 MiB + 1: a flush at the last span)
+func genThreshold(r *rand.Rand, c *Case, fmtName string, n int, target int, segMode int, class string) {
+	genFat(r, c, fmtName, n, 30000, segMode)
+	c.Class = class
+	if target <= 0 {
+		return
+	}
+	d := target - estCaseSize(c)
+	if d < 3 {
+		panic("genThreshold: request already above the target")
+	}
+	first := &c.Zip[0]
+	for k := range first.O {
+		if first.O[k].K == "name" && d%2 == 1 {
+			first.O[k].V.S += "x" // row name + tag value + text
+			d -= 3
+		}
+	}
+	for k := range first.O {
+		if first.O[k].K == "tags" {
+			for j := range first.O[k].V.O {
+				if first.O[k].V.O[j].K == "blob" {
+					first.O[k].V.O[j].V.S += strings.Repeat("x", d/2) // tag value + text
+				}
+			}
+		}
+	}
+	if estCaseSize(c) != target {
+		panic("genThreshold: padding missed the target")
+	}
+}
+
+// breakSpan: the span at index i fails to decode (after the spans before it were handed to onSpan)
+func breakSpan(c *Case, i int) {
+	c.Zip[i].O = append(c.Zip[i].O, f("duration", JV{T: "b", B: true}))
+}
+
 func gen(r *rand.Rand, id int, depth int) Case {
 	c := Case{ID: id, Otlp: []ORes{}, Zip: []JV{}}
 	c.SegSeed = r.Int63()
@@ -1252,6 +1383,32 @@ func gen(r *rand.Rand, id int, depth int) Case {
 			}
 		}
 		c.Class = fm + "-long-line"
+		return c
+	case 17: // > 1 MiB Zipkin array: two mid-request flushes
+		genThreshold(r, &c, "zarr", 40, 0, 2, "zarr-big-flush")
+		return c
+	case 18:
+		genThreshold(r, &c, "znd", 38, 0, 0, "znd-big-flush")
+		return c
+	case 19: // the accumulated size is exactly 1 MiB: not above the threshold, one response
+		genThreshold(r, &c, "zarr", 17, 1024*1024, 0, "zarr-at-threshold")
+		return c
+	case 20: // one byte more: flushed at the last span, the final response is empty
+		genThreshold(r, &c, "znd", 17, 1024*1024+1, 2, "znd-threshold-plus-1")
+		return c
+	case 21: // the last span fails after two flushes: error response, the flushed rows stay
+		genThreshold(r, &c, "zarr", 40, 0, 2, "zarr-error-after-flush")
+		breakSpan(&c, len(c.Zip)-1)
+		return c
+	case 22: // a span in the middle fails after one flush: nothing after it is decoded
+		genThreshold(r, &c, "znd", 40, 0, 0, "znd-error-after-flush")
+		breakSpan(&c, 25)
+		return c
+	case 23: // OTLP: a span with a 3-byte trace id after two flushes
+		genBig(r, &c)
+		c.Class = "otlp-error-after-flush"
+		last := &c.Otlp[0].Scopes[0][len(c.Otlp[0].Scopes[0])-1]
+		last.Tid = "010203"
 		return c
 	}
 	if r.Intn(2) == 0 {
